@@ -1,5 +1,6 @@
 import Nstd.Seq.LemmasStep
 import Nstd.Seq.LemmasNodes
+import Nstd.Seq.LemmasPtr
 /-
   Property C03: List, Array and PoolList hold exactly the reference sequence; List::sort leaves an
   ascending permutation.
@@ -169,6 +170,54 @@ theorem nodes_inv (ops : List Op) (c : LState)
   · exact ⟨h.2.2.1.nodup, h.2.2.1.bound, h.2.2.1.count⟩
   · exact ⟨h.2.2.2.nodup, h.2.2.2.bound, h.2.2.2.count⟩
 
+/-! ### Pointer level: the relinking code of List.hpp -/
+
+/-- `insert(position, value)`, `remove(iterator)` and `clear()` written statement by statement over a heap of
+    items with `value/prev/next` fields, the end sentinel, `_begin`, `freeItem` and 4-item blocks
+    (PtrModel.lean), run on ANY history (iterators obtained by walking `next` from `begin()` as a client does):
+    the heap always represents the state of the chain model after the same history — the `next` links from
+    `_begin` and the `prev` links from the sentinel run through exactly the model's nodes in order, the first
+    item has a null `prev`, the free list (linked through `prev`) is the model's free list, no item is in
+    both, and the two models reject the same operations. -/
+theorem ptr_refines (ops : List Ptr.POp) :
+    ∃ xs fs, Ptr.Rep (Ptr.run Ptr.init ops) xs fs (Ptr.runChain {} ops) :=
+  Ptr.run_rep ops Ptr.init [] [] {} Ptr.rep_init
+
+/-- pointer level: `insert` returns the new item, which is the `k`-th item of the new chain, in front of the
+    item the iterator designated -/
+theorem ptr_insert_returns (p : Ptr.PList) (xs fs : List Nat) (s : LState) (h : Ptr.Rep p xs fs s)
+    (k : Nat) (hk : k ≤ xs.length) (v : Int) :
+    ∃ p' item fs', Ptr.insert p ((xs.drop k).headD 0) v = some (p', item) ∧
+      Ptr.Rep p' (xs.take k ++ item :: xs.drop k) fs' (s.insertRaw k v).1 ∧
+      (xs.take k ++ item :: xs.drop k)[k]? = some item :=
+  Ptr.insert_rep p xs fs s h k hk v
+
+/-- pointer level: `remove` returns `item->next`, the successor of the removed item (the sentinel `0` when the
+    last item is removed), and the item becomes the head of the free list -/
+theorem ptr_remove_returns (p : Ptr.PList) (a b fs : List Nat) (item : Nat) (s : LState)
+    (h : Ptr.Rep p (a ++ item :: b) fs s) :
+    ∃ p', Ptr.remove p item = some (p', b.headD 0) ∧
+      Ptr.Rep p' (a ++ b) (item :: fs)
+        { s with nodes := s.nodes.take a.length ++ s.nodes.drop (a.length + 1), free := (item - 1) :: s.free } :=
+  Ptr.unlink_rep p a b fs item s h
+
+/-- what `Rep` means for a client: iterating from `begin()` with `++` visits, for every position `k`, an item
+    holding the model's `k`-th value, and reaches `end()` after `size` steps -/
+theorem ptr_iteration (p : Ptr.PList) (xs fs : List Nat) (s : LState) (h : Ptr.Rep p xs fs s) :
+    p.size = s.size ∧ Ptr.walk p p.begin s.size = some 0 ∧
+    ∀ k (hk : k < s.vals.length), ∃ a, Ptr.walk p p.begin k = some a ∧ a ≠ 0 ∧ p.val a = s.vals[k] := by
+  have hsize : s.size = xs.length := by simp [LState.size, h.nodes]
+  refine ⟨by rw [h.sz, hsize], ?_, ?_⟩
+  · have := Ptr.walk_seg p xs.length xs none h.seg (Nat.le_refl _)
+    rw [← h.beg] at this
+    rw [hsize, this]; simp
+  · intro k hk
+    have hk' : k < xs.length := by simpa [LState.vals, h.nodes] using hk
+    have := Ptr.walk_seg p k xs none h.seg (Nat.le_of_lt hk')
+    rw [← h.beg, List.drop_eq_getElem_cons hk'] at this
+    refine ⟨xs[k], this, Ptr.seg_ne_zero p xs 0 none h.seg _ (List.getElem_mem hk'), ?_⟩
+    simp [LState.vals, h.nodes]
+
 /-! ### Array capacity -/
 
 /-- In every reachable state both arrays satisfy `size ≤ capacity` whenever they own storage, and an
@@ -256,5 +305,11 @@ def demoOps : List Op :=
 
 example : absS (run {} demoOps) = { l0 := [1, 7, 9], l1 := [1, 7, 9], p0 := [6], a0 := [1, 3, 4] } ∧
     (run {} demoOps).a0.cap = 7 := by decide
+
+/-- the pointer-level model on a concrete history (middle insertion, front/back removal, clear, block reuse) -/
+example :
+    let p := Ptr.run Ptr.init [.insert 0 5, .insert 1 7, .insert 1 6, .remove 0, .insert 2 9, .insert 0 1, .insert 0 2,
+      .remove 4, .clear, .insert 0 3]
+    p.size = 1 ∧ p.begin = 3 ∧ p.val 3 = 3 ∧ p.next 3 = some 0 ∧ p.prev 0 = some 3 ∧ p.nblocks = 2 ∧ p.free = some 2 := by decide
 
 end Nstd.Seq
